@@ -486,13 +486,33 @@ def _main_for(modname, argv=None):
             opt_jobs.append((modname, s.name, args.tier, 0, ns, derive_seed(seed, prop, s.name, "opt"), budget))
     results = []
     ctx = multiprocessing.get_context("fork")
+    lost = []
     with ProcessPoolExecutor(max_workers=NPROC, mp_context=ctx) as ex:
-        futs = [ex.submit(_shard_job, *j) for j in jobs] + [ex.submit(_opt_shard_job, *j) for j in opt_jobs]
+        futs = dict([(ex.submit(_shard_job, *j), (_shard_job, j)) for j in jobs] +
+                    [(ex.submit(_opt_shard_job, *j), (_opt_shard_job, j)) for j in opt_jobs])
         for f in as_completed(futs):
             try:
                 results.append(f.result())
+            except Exception:   # noqa
+                lost.append(futs[f])
+    if lost:
+        # a worker that dies (killed for its memory, say) takes every pending shard of the pool with it: the lost shards
+        # are run again, each in a pool of its own, so that one sub-check cannot hide what the others have to say
+        from concurrent.futures import ThreadPoolExecutor
+
+        def alone(fn_job):
+            fn, j = fn_job
+            try:
+                with ProcessPoolExecutor(max_workers=1, mp_context=ctx) as one:
+                    return one.submit(fn, *j).result()
             except Exception as e:   # noqa
-                harness_errors.append("worker died: {}".format(e))
+                return "worker died again ({} shard {}{}): {}".format(j[1], j[3], " under python -O" if fn is _opt_shard_job else "", e)
+        with ThreadPoolExecutor(max_workers=NPROC) as tp:
+            for r in tp.map(alone, lost):
+                if isinstance(r, str):
+                    harness_errors.append(r)
+                else:
+                    results.append(r)
 
     per_sub = {}
     for s in subs:
@@ -611,15 +631,18 @@ def _main_for(modname, argv=None):
             name, a["evaluations"], len(a["hashes"]), a["rejected"], a["exhaustive"], a["wall"],
             " BUDGET-EXHAUSTED" if a["budget_exhausted"] else ""))
 
+    if seen_viol:
+        # a violation stands on its own replay file, whatever happened to other shards
+        for subname, (path, msg) in seen_viol.items():
+            print("  [{}] {}".format(subname, msg[:2000]))
+            print("VIOLATION property={} replay={}".format(prop, path))
+        for h in harness_errors:
+            print("note: harness error in another part of this run: {}".format(h))
+        return 1
     if harness_errors:
         for h in harness_errors:
             print("HARNESS-ERROR property={} {}".format(prop, h))
         return 2
-    if seen_viol:
-        for subname, (path, msg) in seen_viol.items():
-            print("  [{}] {}".format(subname, msg[:2000]))
-            print("VIOLATION property={} replay={}".format(prop, path))
-        return 1
     if vacuous:
         # a class of cases the property cares about never occurred in this run: recorded in the evidence
         # (coverage.vacuous_labels); fatal only in strict mode, which is how the generators are developed
